@@ -93,6 +93,13 @@ Proof.
   cbn [filter]. rewrite Hne. cbn [map]. rewrite (IH Hl). f_equal. unfold etok_of. apply negb_true_iff in Hp. now rewrite Hp.
 Qed.
 
+Lemma pe_groups_lits root : forallb lit_tok (tokenize root) = true -> pe_groups (path_expression root) = 0.
+Proof.
+  unfold path_expression. cbn [pe_groups]. intros H. induction (tokenize root) as [|t l IH]; [reflexivity|].
+  cbn [forallb] in H. apply andb_true_iff in H as [Ht Hl]. unfold lit_tok in Ht. apply andb_true_iff in Ht as [Hp Hne].
+  cbn [filter]. rewrite Hne. cbn [map fold_right]. rewrite (IH Hl). unfold etok_of. apply negb_true_iff in Hp. now rewrite Hp.
+Qed.
+
 Lemma lit_chars_app a b : lit_chars (a ++ b) = lit_chars a + lit_chars b.
 Proof. induction a as [|e a IH]; [reflexivity|]. cbn. fold (lit_chars (a ++ b)). fold (lit_chars a). rewrite IH. destruct e; lia. Qed.
 
@@ -158,7 +165,7 @@ Proof.
         assert (Hmw : exists capsw finw, jsr_match O (pe_toks (path_expression (s_root w))) p = Some (capsw, finw)).
         { pose proof (Hj w Hin) as H. rewrite Hp in H. destruct (jsr_match O (pe_toks (path_expression (s_root w))) p) as [[a b]|]; [eauto|cbn in H; discriminate H]. }
         destruct Hmw as (capsw & finw & Hmw).
-        set (c := {| dc_ws := w; dc_final := finw; dc_matches := S (S (List.length capsw));
+        set (c := {| dc_ws := w; dc_final := finw; dc_matches := S (S (List.length capsw)) + pe_groups (path_expression (s_root w));
                      dc_literal := pe_literal (path_expression (s_root w)); dc_nondef := pe_vars (path_expression (s_root w)) |}).
         assert (Hcin : In c (c' :: cs)).
         { rewrite <- Esd. apply (sort_desc_In dc_lt). unfold dispatcher_cands. apply in_flat_map. exists w. split; [exact Hin|].
@@ -177,7 +184,7 @@ Proof.
           { pose proof (Hlit w Hin) as H. rewrite Hext, forallb_app in H. now apply andb_true_iff in H as [_ H]. }
           pose proof (lit_chars_pos ext Hne H). lia. }
         assert (Hlt : dc_lt c' c = true).
-        { apply Nat.ltb_lt in K3. unfold dc_lt. rewrite K3. rewrite <- Hc0. cbn [dc_matches c]. rewrite K1, K2. cbn [List.length]. now rewrite Nat.ltb_irrefl. }
+        { apply Nat.ltb_lt in K3. unfold dc_lt. rewrite K3. rewrite <- Hc0. cbn [dc_matches c]. rewrite K1, K2, (pe_groups_lits _ (Hlit w Hin)), (pe_groups_lits _ (Hlit w' Hin')). cbn [List.length]. now rewrite Nat.ltb_irrefl. }
         destruct Hcin as [<-|Hcin]; [rewrite (dc_lt_asym _ _ Hlt) in Hlt; discriminate|].
         apply StronglySorted_inv in Hs as [_ Hf]. rewrite Forall_forall in Hf. specialize (Hf c Hcin). unfold nlt in Hf. congruence. }
     unfold roots_distinct in Hdis.
